@@ -592,6 +592,7 @@ func (p *parent) replay(path string) {
 		Batch  int               `json:"batch"`
 		Index  int               `json:"index"`
 		Hex    string            `json:"input_hex"`
+		Aux    string            `json:"aux"`
 		Case   *txCase           `json:"case"`
 		Window []json.RawMessage `json:"window"`
 	}
@@ -613,7 +614,8 @@ func (p *parent) replay(path string) {
 		}
 		_ = json.Unmarshal(doc.Witness, &last)
 		p.runBatch(job{Target: w.Target, Batch: w.Batch, From: 0, N: last.To + 1})
-	case w.Hex != "":
+	case w.Hex != "" || strings.Contains(w.Aux, "script="):
+		// (peer scripts are described by aux alone)
 		f := p.scratch + "/solo.json"
 		_ = os.WriteFile(f, doc.Witness, 0o644)
 		res := evid.Child([]string{"-c16child", "-target", w.Target, "-seed", fmt.Sprint(doc.Seed), "-batch", fmt.Sprint(w.Batch), "-from", fmt.Sprint(w.Index),
